@@ -17,6 +17,7 @@ def check(chk, thorough=False):
     chk.run('C10.c', 'R-FLOW', 'static routing takes the first matching route in table order, records its action only, and is skipped for bundles already claimed; own admin endpoint is delivered', lambda ob: c10c(tree, ob), floor=5)
     chk.run('C10.d', 'sibling', 'every application receive step checks deliver/destination/not-fragment before touching the bundle', lambda ob: c10d(tree, ob), floor=3)
     chk.run('C10.f', 'R-ORDER', 'a bundle leaves the forwarding queue before it is processed, whatever the outcome (a failed forward is not processed again)', lambda ob: c10f(tree, ob), floor=1)
+    chk.run('C10.g', 'R-PAIR', 'a fragment never continues down the receive chain as if it were the bundle: one re-injection site through recv_bundle (identity recorded there) (= C06.d)', lambda ob: _c06d(tree, ob), floor=3)
     chk.run('C10.e', 'R-WHO', 'actions are recorded only through record_action (two sanctioned direct edits)', lambda ob: c10e(tree, ob), floor=3)
 
 
@@ -69,6 +70,11 @@ def c10a(tree, ob):
             ob.violate(AGENT, fv.qual, 'if {} in self._seen_bundle_ident'.format(ident), 'an already seen bundle still reaches processing', site)
 
 
+def _c06d(tree, ob):
+    from .c06 import c06d
+    return c06d(tree, ob)
+
+
 def c10b(tree, ob):
     fv = FuncView(tree, UTIL, 'BundleContainer.bundle_ident')
     rets = [r for r in walk_local(fv.func) if isinstance(r, ast.Return)]
@@ -109,6 +115,8 @@ def c10b(tree, ob):
 
 
 def c10c(tree, ob):
+    from .common import route_table_loading
+    route_table_loading(tree, ob, 'rx_route_table', 'RxRouteItem', {'eid_pattern': "re.compile(item['eid_pattern'])", 'action': "item['action']"})
     fv = FuncView(tree, AGENT, 'Agent._do_rx_step')
     loops = [n for n in walk_local(fv.func) if isinstance(n, ast.For)]
     loop = one(loops, 'route loop', ob)
